@@ -13,7 +13,7 @@ from rsim.prf import Rng, digest
 PROP = "C15"
 LEVEL = "exploration"
 TIERS = {
-    "quick": {"cases": 500, "budget_s": 80, "batch": 64},
+    "quick": {"cases": 650, "budget_s": 150, "batch": 64},
     "thorough": {"cases": 5000, "budget_s": 900, "batch": 64},
 }
 RULE = (
